@@ -136,7 +136,13 @@ func vpH_C09_count() {
 	submitted, emitted := 0, 0
 	anyDup := false
 	for k := 0; k < steps; k++ {
-		op := vpChoice("op", 1+n)
+		op := vpChoice("op", 2+n)
+		if op == 1+n {
+			// a CLOSE (of any subscription id) does not concern COUNT requests
+			out := ss.handleRecvMsg(&ClientCloseMsg{SubscriptionID: vpSym1("closeid")})
+			vpAssert(out != nil, "C09.close-broadcast")
+			continue
+		}
 		if op == 0 {
 			id := vpSym1("sub")
 			dup := false
